@@ -32,6 +32,8 @@ def run_case(case, rng):
     n_max = 9 if case.tier == "thorough" and rng.random() < 0.3 else 6
     sp = G.random_spec(rng, fam, n_max=n_max, allow_dup_actions=True)
     rep = rng.choice(Bd.REPRS)
+    if rng.random() < 0.12:
+        rep = "annotated"       # equal-but-distinct state objects whose step note the reward function reads
     if not rep.endswith("explicit"):
         G.restrict_to_closure(sp, rng)
     sp.init = [(s, p) for s, p in sp.init if p > 0]
@@ -81,7 +83,17 @@ def run_case(case, rng):
         sup_mdp._action_list = tuple(mdp.action_list)
         case.call("plan_on(superset sibling first)", planner.plan_on, sup_mdp)
         case.count("planner_reused")
-    res = case.call("MultichainPolicyIteration.plan_on", planner.plan_on, mdp, facts=dict(gamma=gamma))
+    # probe on the algorithm's own rank test: how many rows it kept, and how many are truly independent
+    from msdm.algorithms import multichainpolicyiteration as mc_mod
+    from mon.probe.wrap import wrap
+    rank_calls = []
+
+    def after_rank(args, kwargs, out, exc):
+        if exc is None:
+            rank_calls.append((len(out), int(np.linalg.matrix_rank(args[0]))))
+    with wrap(mc_mod, "independent_row_indices", after=after_rank):
+        res = case.call("MultichainPolicyIteration.plan_on", planner.plan_on, mdp, facts=dict(gamma=gamma))
+    case.count("rank_test_calls_observed", len(rank_calls))
     if mode == "read_after" and res is not case.FAIL:
         case.call("plan_on(sibling afterwards)", MultichainPolicyIteration(max_iterations=cap).plan_on, sib_mdp)
         case.call("plan_on(sibling afterwards, same planner)", planner.plan_on, sib_mdp)
@@ -117,10 +129,17 @@ def run_case(case, rng):
         if not sol.ok:
             raise Inconclusive("reference not certified")
         V = Rd.vec(res.state_value, S)
-        tol = 1e-6 * sol.scale / (1 - gamma)
+        # the improvement step keeps the current action when np.isclose(Q[current], max Q) (rtol 1e-5, atol 1e-8):
+        # iteration legitimately stops at a policy whose actions are up to delta below the best one, and then
+        # V* - V^pi <= delta/(1-gamma)  (the same bound C01 uses for policy iteration)
+        qmax = float(np.abs(Rd.mat(res.action_value, S, A)[arr.avail]).max()) if arr.avail.any() else 0.0
+        if not np.isfinite(qmax):
+            qmax = sol.scale
+        tol = max(1e-6 * sol.scale / (1 - gamma), (1e-8 + 1e-5 * qmax) / (1 - gamma))
         # a discounted problem has gain exactly 0; a clearly non-zero reported gain means the
         # implementation's rank test dropped an independent row (known finding, see known.py)
-        facts = dict(facts, max_abs_reported_gain=float(np.abs(Rd.vec(res.state_gain, S)).max()))
+        facts = dict(facts, max_abs_reported_gain=float(np.abs(Rd.vec(res.state_gain, S)).max()),
+                     rank_test_dropped_rows=(rank_calls[-1][1] - rank_calls[-1][0]) if rank_calls else None)
         for i in range(len(S)):
             case.count("value_entries_compared")
             case.check(abs(V[i] - sol.V[i]) <= tol, "state_value!=optimal-discounted-value",
